@@ -259,7 +259,8 @@ impl<'a> Cmap12<'a> {
             (limits.glyph_count as u64)
                 .saturating_sub(start_glyph_id as u64)
                 .saturating_add(start_code as u64)
-                .min(end_code.min(limits.max_char as u64))
+                // max_char is inclusive, end_code is exclusive
+                .min(end_code.min(limits.max_char as u64 + 1))
         } else {
             end_code
         };
